@@ -1236,14 +1236,28 @@ func (c *FCtx) afterAsserts(st *State, s ast.Stmt) {
 		s = ls.Stmt
 	}
 	for _, ak := range c.fi.Anchors[s] {
+		done := map[int]*Term{}
 		for k, cl := range c.curCon.Afters[ak] {
 			if !cl.visible(c.prop) {
 				continue
 			}
 			env := c.bodyEnv(st, s.End())
 			t := env.evalBool(cl.E)
+			done[k+1] = t
 			if !c.dry {
-				c.oblige(st, "assert", fmt.Sprintf("after[%s]/assert[%d] %s", ak, k+1, cl.Src), t, c.eng.pos(s))
+				name := fmt.Sprintf("after[%s]/assert[%d] %s", ak, k+1, cl.Src)
+				if len(cl.From) > 0 {
+					// isolated cut: only the listed earlier assertions of this anchor are hypotheses (dropping hypotheses is sound)
+					var hyps []*Term
+					for _, f := range cl.From {
+						if h, ok := done[f]; ok {
+							hyps = append(hyps, h)
+						}
+					}
+					c.oblige(&State{pc: hyps}, "assert", name, t, c.eng.pos(s))
+				} else {
+					c.oblige(st, "assert", name, t, c.eng.pos(s))
+				}
 			}
 			st.assume(t)
 		}
